@@ -26,6 +26,8 @@ Inductive ostep :=
          (resp : response)             (* what the scripted handler returns for it *)
          (o_evs : list bytes)          (* subject keys of the events the handler was called with *)
          (o_states : list key_state)   (* KeyStates it was given, sorted by subject key *)
+| OFail (evs : list bytes)             (* a storage read fault was armed for this batch and HandleEvent returned the
+                                          error: no handler call; the batch's events are gone, nothing is applied *)
 | OCkpt (id : N)
 | ORestore (id : N).
 
@@ -39,6 +41,7 @@ Definition memo_kgf (count : N) (tbl : list (bytes * N)) (k : bytes) : N :=
 Definition step_keys (st : ostep) : list bytes :=
   match st with
   | OBatch evs resp o_evs o_states => evs ++ map kr_key resp ++ o_evs ++ map fst o_states
+  | OFail evs => evs
   | _ => []
   end.
 Definition kg_table (count : N) (steps : list ostep) : list (bytes * N) :=
@@ -134,7 +137,7 @@ Definition check_step (kgf : bytes -> N) (y : cst) (st : ostep) : cst * list N :
   match st with
   | OBatch evs resp o_evs o_states =>
       let keys := sort_keys (distinct_keys [] evs) in
-      let model := option_map fst (fetch_states list_kv kgf keys (c_db y)) in
+      let model := match fetch_states list_kv kgf keys (c_db y) with FOk sts _ => Some sts | _ => None end in
       let db' := fold_left (apply_result list_kv kgf (fun _ _ => true)) resp (c_db y) in
       let y' := {| c_db := db'; c_saved := c_saved y; c_log := olog_response (c_log y) resp; c_lsaved := c_lsaved y |} in
       let codes :=
@@ -147,6 +150,7 @@ Definition check_step (kgf : bytes -> N) (y : cst) (st : ostep) : cst * list N :
         (if list_eqb bytes_eqb (map fst o_states) (sort_keys (distinct_keys [] o_evs)) then [] else [16]) ++
         flat_map (spec_key_state (c_log y)) o_states in
       (y', codes)
+  | OFail _ => (y, [])                   (* process_batch with a failing scan: BFailed, contents unchanged *)
   | OCkpt id =>
       ({| c_db := c_db y; c_saved := (id, c_db y) :: c_saved y; c_log := c_log y; c_lsaved := (id, c_log y) :: c_lsaved y |}, [])
   | ORestore id =>
